@@ -117,9 +117,43 @@ impl ScriptedRng {
             Some(s) => s,
             None => self.fresh_scalar(),
         };
-        dest[..32].copy_from_slice(&s.to_bytes());
-        for b in dest[32..].iter_mut() {
-            *b = 0;
+        // half of the time the 64 bytes are not the canonical `s ‖ 0³²` but another 512-bit preimage of the same
+        // scalar, `s + k·q`: a sampler must judge the *reduced* value (a zero scalar may arrive as q, 2q, q·2^200 …)
+        let mut coin = [0u8; 33];
+        self.prng.fill_bytes(&mut coin);
+        if coin[32] & 1 == 0 {
+            dest[..32].copy_from_slice(&s.to_bytes());
+            for b in dest[32..].iter_mut() { *b = 0; }
+        } else {
+            const Q: [u64; 4] = [0xffff_ffff_0000_0001, 0x53bd_a402_fffe_5bfe, 0x3339_d808_09a1_d805, 0x73ed_a753_299d_7d48];
+            let mut k = [0u64; 4];
+            for i in 0..4 { let mut a = [0u8; 8]; a.copy_from_slice(&coin[8 * i..8 * i + 8]); k[i] = u64::from_le_bytes(a); }
+            k[3] &= (1u64 << 56) - 1; // k < 2^248, so s + k·q < 2^504
+            if k == [0u64; 4] { k[0] = 1; }
+            if coin[32] & 6 == 0 { k = [1, 0, 0, 0]; } // often exactly s + q
+            let mut acc = [0u64; 9];
+            for i in 0..4 {
+                let mut carry = 0u128;
+                for j in 0..4 {
+                    let t = acc[i + j] as u128 + (k[i] as u128) * (Q[j] as u128) + carry;
+                    acc[i + j] = t as u64;
+                    carry = t >> 64;
+                }
+                let mut idx = i + 4;
+                while carry != 0 { let t = acc[idx] as u128 + carry; acc[idx] = t as u64; carry = t >> 64; idx += 1; }
+            }
+            let sb = s.to_bytes();
+            let mut carry = 0u128;
+            for i in 0..8 {
+                let add = if i < 4 { let mut a = [0u8; 8]; a.copy_from_slice(&sb[8 * i..8 * i + 8]); u64::from_le_bytes(a) } else { 0 };
+                let t = acc[i] as u128 + add as u128 + carry;
+                acc[i] = t as u64;
+                carry = t >> 64;
+            }
+            for i in 0..8 { dest[8 * i..8 * i + 8].copy_from_slice(&acc[i].to_le_bytes()); }
+            let mut w = [0u8; 64];
+            w.copy_from_slice(&dest[..64]);
+            debug_assert_eq!(Scalar::from_bytes_wide(&w), s);
         }
         self.log.push(Draw::S(s));
     }
